@@ -514,8 +514,17 @@ pub fn shard_main(prop: &Prop, env: Env) -> i32 {
         }
         // the first failure as it happened: racy cases may not fail again while shrinking
         let first_fail: RefCell<Option<(Failure, Vec<u32>)>> = RefCell::new(None);
+        // shrinking gets 90 s of wall clock (a case that ends in a watchdog expiry costs tens of
+        // seconds per attempt); after that every further candidate is answered "passes", which
+        // leaves the smallest failing case found so far
+        let shrink_deadline: RefCell<Option<Instant>> = RefCell::new(None);
         let res = runner.run(&strat, |v| {
             progress.fetch_add(1, std::sync::atomic::Ordering::SeqCst);
+            if let Some(d) = *shrink_deadline.borrow() {
+                if Instant::now() > d {
+                    return Ok(());
+                }
+            }
             if prop.breadcrumb {
                 let _ = std::fs::write(&crumb, serde_json::to_vec(&v).unwrap_or_default());
             }
@@ -528,6 +537,7 @@ pub fn shard_main(prop: &Prop, env: Env) -> i32 {
                     s.counting = false;
                     if first_fail.borrow().is_none() {
                         *first_fail.borrow_mut() = Some((f.clone(), v.clone()));
+                        *shrink_deadline.borrow_mut() = Some(Instant::now() + Duration::from_secs(90));
                     }
                     Err(TestCaseError::fail(f.sig))
                 }
